@@ -695,10 +695,11 @@ class Engine:
             fh.write(smt)
             path = fh.name
         try:
-            for backend, cmd in (("cvc5", ["/usr/bin/cvc5", "--tlimit=30000", path]),
-                                 ("z3-4.8", ["/usr/bin/z3", "-T:30", path])):
+            sc = getattr(ctx, "load_scale", 1.0)
+            for backend, cmd in (("cvc5", ["/usr/bin/cvc5", f"--tlimit={int(30000 * sc)}", path]),
+                                 ("z3-4.8", ["/usr/bin/z3", f"-T:{int(30 * sc)}", path])):
                 try:
-                    r = subprocess.run(cmd, capture_output=True, text=True, timeout=40, check=False)
+                    r = subprocess.run(cmd, capture_output=True, text=True, timeout=int(40 * sc), check=False)
                 except (subprocess.TimeoutExpired, FileNotFoundError):
                     continue
                 out = r.stdout.strip().splitlines()
